@@ -28,10 +28,17 @@ RULE = ("(i) random bipartite candidate graphs (up to 7 storms x 7 rises, intege
 
 
 def graph_case(rng):
-    ns, nr = rng.randint(1, 7), rng.randint(1, 7)
-    storms = rng.sample(range(0, 40), ns)
-    rises = rng.sample(range(100, 140), nr)
-    dens = rng.choice([0.3, 0.5, 0.8, 1.0])
+    if rng.random() < 0.08:
+        # tens of storms and rises: another regime of Python's set/dict ordering
+        ns, nr = rng.randint(12, 40), rng.randint(12, 40)
+        storms = rng.sample(range(0, 5000), ns)
+        rises = rng.sample(range(10000, 15000), nr)
+        dens = rng.choice([0.1, 0.2, 0.4])
+    else:
+        ns, nr = rng.randint(1, 7), rng.randint(1, 7)
+        storms = rng.sample(range(0, 40), ns)
+        rises = rng.sample(range(100, 140), nr)
+        dens = rng.choice([0.3, 0.5, 0.8, 1.0])
     ties = rng.random() < 0.3
     cand = {s: [r for r in rises if rng.random() < dens] for s in storms}
     for s in storms:
@@ -40,7 +47,7 @@ def graph_case(rng):
     for r in rises:
         ss = [s for s in storms if r in cand[s]]
         if ss:
-            vals = [-rng.randint(0, 3) for _ in ss] if ties else rng.sample(range(-20, 0), len(ss))
+            vals = [-rng.randint(0, 3) for _ in ss] if ties else rng.sample(range(-200, 0), len(ss))
             prefs[r] = dict(zip(ss, vals))
     return storms, rises, cand, prefs
 
@@ -105,17 +112,19 @@ def graph_stream(ctx, n):
 
 
 def runs_case(rng):
-    """disjoint storm runs and disjoint rise runs on 0..L"""
-    L = rng.randint(4, 24)
+    """disjoint storm runs and disjoint rise runs on 0..L; one side may consist of long runs (hours of
+    continuous heavy rain on 1-minute data) while the other has many short ones far apart inside them"""
+    shape = rng.choice(["short", "short", "short", "long-storms", "long-rises"])
+    L = rng.randint(4, 24) if shape == "short" else rng.randint(2000, 12000)
 
-    def runs():
+    def runs(long):
         out, i = [], rng.randint(0, 2)
         while i < L:
-            k = rng.randint(1, 4)
+            k = rng.randint(300, 4000) if long else rng.randint(1, 4)
             out.append((i, min(i + k, L)))
-            i += k + rng.randint(1, 3)
+            i += k + (rng.randint(1, 3) if (long or shape == "short") else rng.randint(1, 1500))
         return out
-    return runs(), runs()
+    return runs(shape == "long-storms"), runs(shape == "long-rises")
 
 
 def disamb_stream(ctx, n):
